@@ -510,16 +510,17 @@ def handle_confinement(fx):
             o = callee_orig(t)
             if o in collectors and any(op_local(a) in tainted for a in t["args"]):
                 bad.append("%s at %s" % (o, q.loc_of(t)))
-        # struct aggregates holding a handle (other than Arc::new, closures and Result/Option wrappers)
+        # a handle put into a local struct value (a job description) travels on with it (taint); what must not
+        # happen is writing it into storage that outlives the iteration: a field reached through a reference
         for bi, b in enumerate(f.blocks):
             if b.get("cleanup"):
                 continue
             for s in b["stmts"]:
                 rv = s["rv"]
-                if rv["k"] == "agg" and rv.get("ak") == "adt" and rv["adt"] not in (
-                        "core::result::Result", "core::option::Option", "core::ops::control_flow::ControlFlow") and \
-                        any(op_local(o_) in tainted for o_ in rv["fields"]):
-                    bad.append("stored in %s at %s:%d" % (rv["adt"], s["span"]["file"], s["span"]["line"]))
+                lp = s["lhs"].get("p") or []
+                ops_ = rv.get("fields", []) if rv["k"] == "agg" else ([rv["op"]] if rv["k"] == "use" else [])
+                if lp and "deref" in lp and any(op_local(o_) in tainted and "mv" in o_ for o_ in ops_):
+                    bad.append("stored through a reference at %s:%d" % (s["span"]["file"], s["span"]["line"]))
         # closures capturing it must go to the bounded pool (or be called in place)
         for bi, b in enumerate(f.blocks):
             for s in b["stmts"]:
@@ -527,7 +528,9 @@ def handle_confinement(fx):
                 if rv["k"] == "agg" and rv.get("ak") == "closure" and any(op_local(o_) in tainted for o_ in rv["fields"]):
                     cl = rv["closure"]
                     cf = fx.fn(cl)
-                    holds_by_value = cf is not None and any(COPYHANDLE in c["ty"] and c["by"] == "value" for c in cf.captures)
+                    idx_ = [i_ for i_, o_ in enumerate(rv["fields"]) if op_local(o_) in tainted]
+                    holds_by_value = cf is not None and any(i_ < len(cf.captures) and cf.captures[i_]["by"] == "value" and
+                                                            not cf.captures[i_]["ty"].startswith("&") for i_ in idx_)
                     if holds_by_value:
                         to_pool = any(cl in (t["fn"].get("fnvals") or []) for _, t in q.calls_to(f, POOL_EXECUTE))
                         inplace = any(cl in (t["fn"].get("fnvals") or []) for _, t in q.calls_to(
